@@ -1,4 +1,5 @@
 import IdModel.Panic.Model
+import IdModel.Panic.Linked
 import IdModel.Did.Model
 import IdModel.IotaDid.Model
 import IdModel.Time.Model
@@ -26,10 +27,68 @@ def modelled (name : String) (bs aux : List Nat) : Option String :=
       | .panic _ => "panic")
   else none
 
+/-! `linked` / `linkednew`: the request is an ASCII spec (see harness/src/c05.rs `linked_spec`):
+`<types>|<endpoint>` with type codes `L` `V` `X` `Y`, endpoint `o<u>` (one), `s<u>*` (set), `m<k><u>*;<k><u>*…` (map, key codes
+`o` = origins, `x`, `y`), URL codes `a b p q f h d`. -/
+open Panic.Linked in
+def urlOf (c : Char) : Option U :=
+  match c with
+  | 'a' => some ⟨true, true, 1⟩    -- https://a.example
+  | 'b' => some ⟨true, true, 2⟩    -- https://b.example/
+  | 'p' => some ⟨true, false, 3⟩   -- https://a.example/p
+  | 'q' => some ⟨true, false, 4⟩   -- https://a.example?q
+  | 'f' => some ⟨true, false, 5⟩   -- https://a.example#f
+  | 'h' => some ⟨false, true, 6⟩   -- http://a.example
+  | 'd' => some ⟨false, false, 7⟩  -- did:ex:x
+  | _ => none
+
+def typeOf (c : Char) : Option String :=
+  match c with
+  | 'L' => some "LinkedDomains" | 'V' => some "LinkedVerifiablePresentation" | 'X' => some "X" | 'Y' => some "linkeddomains"
+  | _ => none
+
+def keyOf (c : Char) : Option String :=
+  match c with
+  | 'o' => some "origins" | 'x' => some "x" | 'y' => some "Origins" | _ => none
+
+open Panic.Linked in
+def endpointOf (cs : List Char) : Option Endpoint :=
+  match cs with
+  | ['o', u] => (urlOf u).map .one
+  | 's' :: us => (us.mapM urlOf).map .set
+  | 'm' :: rest =>
+    let groups := ((String.ofList rest).splitOn ";").filter (· != "")
+    (groups.mapM fun (g : String) =>
+      match g.toList with
+      | k :: us => do
+        let key ← keyOf k
+        let l ← us.mapM urlOf
+        pure (key, l)
+      | [] => none).map .map
+  | _ => none
+
+open Panic.Linked in
+def linked (name : String) (bs : List Nat) : Option String :=
+  let spec := String.ofList (bs.map Char.ofNat)
+  if name == "linked" then
+    match spec.splitOn "|" with
+    | [ts, ep] => do
+      let types ← ts.toList.mapM typeOf
+      let e ← endpointOf ep.toList
+      pure (reply { types := types, ep := e })
+    | _ => none
+  else
+    match spec.toList with
+    | 'L' :: us => (us.mapM urlOf).map (replyNew true)
+    | 'V' :: us => (us.mapM urlOf).map (replyNew false)
+    | _ => none
+
 def handle : List String → String
   | [name, h] =>
     match unhex h with
-    | some bs => (modelled name bs []).getD "u"
+    | some bs =>
+      if name == "linked" || name == "linkednew" then (linked name bs).getD "bad-request"
+      else (modelled name bs []).getD "u"
     | none => "bad-request"
   | [name, h, a] =>
     match unhex h, unhex a with
